@@ -297,7 +297,11 @@ def same(a, b):
 
 
 def unknown_function(nodes, names):
+    """does the tree hold something the grammar admits but the productions refuse to build: a function the factory does not know,
+    or a header/variable whose name before the first dot is empty (`@.x`)"""
     for n in nodes:
+        if n["k"] in ("var", "header") and not n["name"].startswith('"') and n["name"].split(".")[0].strip() == "":
+            return True
         if n["k"] == "fn":
             if n["name"].split(".")[0] not in names or unknown_function(n["args"], names):
                 return True
